@@ -255,8 +255,15 @@ impl<'a> Parser<'a> {
         let mut segments = Vec::new();
 
         // Check for leading `..` (Python-style parent navigation)
-        while self.match_op(OperatorId::DotDot) {
-            parent_levels += 1;
+        // `..` is one level up; `...` (lexed as a single Ellipsis token) is two, as documented.
+        loop {
+            if self.match_op(OperatorId::DotDot) {
+                parent_levels += 1;
+            } else if self.match_punct(PunctuationId::Ellipsis) {
+                parent_levels += 2;
+            } else {
+                break;
+            }
         }
 
         // Check for `crate` (absolute path)
